@@ -106,7 +106,11 @@ var cacheStmtCounter int
 
 //go:noinline
 func (w *cacheWorld) newStmt() {
-	cacheStmtCounter++
+	// the first two Statements of a history have the same text (two Statement values whose generated SQL
+	// is identical, shape by shape): each has its own cache entries and its own driver statements
+	if len(w.stmts) != 1 {
+		cacheStmtCounter++
+	}
 	st, err := sqlair.Prepare(fmt.Sprintf("SELECT &Person.* FROM person WHERE id IN ($IntSlice[:]) OR name IN ($StrSlice[:]) -- stmt %d", cacheStmtCounter), Person{}, IntSlice{}, StrSlice{})
 	if err != nil {
 		panic(err)
@@ -536,6 +540,7 @@ func cmdCache(args []string) int {
 			cacheRerun(r.fork(), addViol)
 			cachePrepareCancel(r.fork(), addViol)
 			heldContext(r.fork(), addViol)
+			dropDBAfterTX(r.fork(), addViol)
 		}
 		st.Stress++
 	}
@@ -656,7 +661,7 @@ func cacheStress(r *rng, add func(violation)) {
 				if gr.chance(1, 8) {
 					f := fakes[d]
 					f.mu.Lock()
-					f.failAt[f.calls+1+gr.intn(3)] = fmt.Errorf("injected-9")
+					f.failAt[f.calls+1+gr.intn(3)] = fmt.Errorf("injected-9: %s", gr.pick([]string{"driver failure", "database is locked", "database table is locked", "SQLITE_BUSY", "deadlock detected; retry"}))
 					f.mu.Unlock()
 				}
 				// every fifth call runs under its own context, which is cancelled (or expires) a moment later
@@ -667,7 +672,7 @@ func cacheStress(r *rng, add func(violation)) {
 					ctx, cancel = cancellable(context.Background(), uint64(k))
 					time.AfterFunc(time.Duration(30+gr.intn(300))*time.Microsecond, cancel)
 				case 1:
-					ctx, cancel = context.WithTimeout(context.Background(), time.Duration(30+gr.intn(300))*time.Microsecond)
+					ctx, cancel = context.WithTimeout(context.WithValue(context.Background(), markerKey, 1), time.Duration(30+gr.intn(300))*time.Microsecond)
 				}
 				err := dbs[d].Query(ctx, stmts[s], sl, ss).GetAll(&ps)
 				own := ctx.Err()
@@ -735,6 +740,10 @@ func cacheStress(r *rng, add func(violation)) {
 				nargs := len(ev.Args)
 				if strings.Count(ev.SQL, "@sqlair_") != nargs {
 					viol("C09", "statement-shape-differs-from-arguments", fmt.Sprintf("%q with %d args", ev.SQL, nargs))
+				}
+				// the driver sees a deadline only when the caller's context has one (those carry marker 1)
+				if m, _ := ev.CtxMarker.(int); ev.Deadline && m != 1 {
+					viol("C20", "driver-saw-a-deadline-the-caller-did-not-set", fmt.Sprintf("db %d stmt %d", di, ev.Stmt))
 				}
 				if d := shapeMismatch(ev); d != "" {
 					for _, p := range []string{"C09", "C01", "C16", "C17", "C04"} {
@@ -896,6 +905,74 @@ func concurrentNewDB(rounds int, add func(violation)) {
 			return
 		}
 	}
+}
+
+// dropDBAfterTX: a transaction is begun under a cancellable context that stays live, is finished and
+// dropped; then the DB is dropped: after garbage collection its cache entries are gone and every driver
+// statement prepared on it has been closed (nothing of a finished transaction keeps the DB alive).
+func dropDBAfterTX(r *rng, add func(violation)) {
+	desc := fmt.Sprintf("DB dropped after a finished transaction, seed-state %d", r.s)
+	viol := func(name, detail string) { add(violation{"C11", name, hx(desc), detail}) }
+	settle()
+	base := cacheCounts()
+	cacheStmtCounter++
+	stmt := sqlair.MustPrepare(fmt.Sprintf("SELECT &Person.* FROM person WHERE id = $Person.id -- dbtx %d", cacheStmtCounter), Person{})
+	sqldb, f := openFake()
+	db := sqlair.NewDB(sqldb)
+	ctx, cancel := cancellable(context.Background(), r.next())
+	defer cancel() // at the very end
+	var p Person
+	db.Query(context.Background(), stmt, Person{ID: 1}).Get(&p)
+	func() {
+		tx, err := db.Begin(ctx, nil)
+		if err != nil {
+			return
+		}
+		tx.Query(ctx, stmt, Person{ID: 2}).Get(&p)
+		if r.chance(1, 2) {
+			tx.Commit()
+		} else {
+			tx.Rollback()
+		}
+	}()
+	db = nil
+	keepStmt := r.chance(1, 2)
+	if !keepStmt {
+		stmt = nil
+	}
+	settle()
+	settle()
+	c := cacheCounts()
+	wantS := base[0]
+	if keepStmt {
+		wantS++
+	}
+	if c[1] != base[1] || c[2] != base[2] || c[0] != wantS {
+		settle()
+		c = cacheCounts()
+		if c[1] != base[1] || c[2] != base[2] || c[0] != wantS {
+			viol("cache-entries-left-after-the-DB-was-dropped", fmt.Sprintf("counts %v, baseline %v (Statement kept: %v), the context of Begin still live", c, base, keepStmt))
+		}
+	}
+	prepared, closed := map[int]bool{}, map[int]int{}
+	for _, ev := range f.log() {
+		switch ev.Kind {
+		case "prepare":
+			if ev.Err == nil {
+				prepared[ev.Stmt] = true
+			}
+		case "stmtclose":
+			closed[ev.Stmt]++
+		}
+	}
+	for id := range prepared {
+		if closed[id] == 0 {
+			viol("driver-statement-never-closed", fmt.Sprintf("statement %d, after its DB was dropped and collected (the context of Begin still live)", id))
+		}
+	}
+	runtime.KeepAlive(stmt)
+	sqldb.Close()
+	dropFakeDB(f.name)
 }
 
 // cacheManyStatements: several thousand Statements are alive and prepared on one DB at the same time; every
